@@ -36,6 +36,7 @@ import (
 
 	"github.com/oxia-db/oxia/common/metric"
 	"github.com/oxia-db/oxia/proto"
+	"github.com/oxia-db/oxia/server/util"
 	"github.com/oxia-db/oxia/server/wal/codec"
 )
 
@@ -460,6 +461,7 @@ func (t *wal) clearWithoutLock() error {
 	err := multierr.Combine(
 		t.currentSegment.Close(),
 		t.readOnlySegments.Close(),
+		removeAllSegments(t.walPath),
 		os.RemoveAll(t.walPath),
 	)
 
@@ -480,6 +482,29 @@ func (t *wal) clearWithoutLock() error {
 	t.lastAppendedOffset.Store(InvalidOffset)
 	t.lastSyncedOffset.Store(InvalidOffset)
 	t.firstOffset.Store(InvalidOffset)
+	return nil
+}
+
+// removeAllSegments deletes the segments from the newest to the oldest one (and, for each, the txn file
+// before its index): if the process dies in the middle, what is left is a prefix of the log, like after
+// a truncation, and not a log with holes or a segment without its index.
+func removeAllSegments(walPath string) error {
+	segments, err := listAllSegments(walPath)
+	if err != nil {
+		return err
+	}
+	for i := len(segments) - 1; i >= 0; i-- {
+		c, err := newSegmentConfig(walPath, segments[i])
+		if err != nil {
+			return err
+		}
+		if err = multierr.Combine(
+			util.RemoveFileIfExists(c.txnPath),
+			util.RemoveFileIfExists(c.idxPath),
+		); err != nil {
+			return err
+		}
+	}
 	return nil
 }
 
